@@ -58,7 +58,7 @@ def m_moma_infeasible_growth_unchecked():
 def m_sample_n_not_rounded():
     # seeded defect missed by the first version of the driver: centre / n_samples updated with the requested n while the
     # sum runs over all generated rows; only a LATER call on the same sampler goes wrong
-    remake_method(OPT.OptGPSampler, OPT, "sample", "            n = n_process * self.processes\n", "")
+    remake_method(OPT.OptGPSampler, OPT, "sample", "n = n_process * self.processes\n", "pass\n")
 def m_sample_floor():
     remake_method(OPT.OptGPSampler, OPT, "sample", "n_process = np.ceil(n / self.processes).astype(int)", "n_process = max(1, n // self.processes)")
 def m_sample_seed_time():
